@@ -12,14 +12,14 @@ BOUNDS = {'quick': {'nd': '1..3', 'size of operated axis': '1..4', 'n': '1..3'},
 DEADLINE = {'quick': 120, 'thorough': 1200}
 
 
-def _build(ctx, shape, lkinds, dkind='f', nan=False):
+def _build(ctx, shape, lkinds, dkind='f', nan=False, inf=False):
     nd = len(shape)
     dims = DIMS[:nd]
     labels = [ctx.labels(k, n, 'l%s_' % d) for d, n, k in zip(dims, shape, lkinds)]
     ncell = 1
     for n in shape:
         ncell *= n
-    cells = ctx.cells(dkind, ncell, 'v', nan=nan)
+    cells = ctx.cells(dkind, ncell, 'v', nan=nan, inf=inf)
     attrs = {'units': 'K'}
     a = ctx.mk(dims, labels, cells, lkinds=lkinds, kind=dkind, attrs=attrs)
     return a, Ref(dims, labels, cells), dims, labels, attrs
